@@ -2,21 +2,22 @@
   C16 — properties: flat dotted keys and trees correspond exactly and deterministically.
 
   Statements are about the definitions of `YtkModel/Props.lean` that the driver executes.
-  A flat map is an `AMap` (sorted, unique keys); `unflatten` / `fromProperties` visit the keys in
-  that (sorted) order, as the code does since the D21 fix; `UnflattenRel` / `FromPropertiesRel`
-  / `EncodeRel` allow any visiting order (Go map iteration).
+  A flat map is an `AMap Scalar` (sorted, unique keys); `toV` wraps its values as plain values.
+  `unflatten` / `fromProperties` visit the keys in that (sorted) order, as the code does since
+  the D21 fix; `UnflattenRel` / `FromPropertiesRel` / `EncodeRel` allow any visiting order
+  (Go map iteration).
 
-  Proved here: the encode → parse round trip (for every writing order), the determinism of the
-  executable model with its concrete D21 witness (the relational, pre-fix semantics has two
-  different results for `{a=1, a.b=2}`; the sorted one has exactly one), the small structural
-  facts.  NOT proved (kept as statements below, validated by the correspondence harness only):
+    PrefixFree kv : no key is a dotted prefix of another
+    KeyOk k       : every dotted component of k is non-empty and does not end in `[digits]`
+                    (implied by the path-safe alphabet `[A-Za-z0-9_-]+`)
+    LineSafe p    : the key has no `=` / newline, the value no newline (no escaping needed)
+    Loads load text kv : the contract on the external properties loader (magiconair) for one
+                    text — it yields exactly the pairs of `kv`, all values strings.  For the
+                    reference parser `parseSimple` on text written by the encoder the contract
+                    is PROVED (`decode_encode`); for magiconair it is validated by corr:C16.parse.
 
-    unflatten_flatten       : Sorted kv → (∀ p ∈ kv, KeyOk p.1) → PrefixFree kv →
-                                flattenPlainMap (unflatten kv) = kv.map (fun p => (p.1, scalarOf p.2))
-    fromProperties_flatten  : Sorted kv → (∀ p ∈ kv, KeyOk p.1) → PrefixFree kv →
-                                flattenMap (fromProperties kv) = kv
-    unflatten_order_indep   : Sorted kv → PrefixFree kv → UnflattenRel kv out → out = unflatten kv
-    fromProperties_order_indep : likewise for FromPropertiesRel
+  `flattenPlainMap` / `flattenMap` are the flattenings as Go maps (`AMap.ofList` of the
+  traversal): equality with `kv` says "exactly the decoded key/value pairs".
 -/
 import YtkProofs.Props
 
@@ -89,12 +90,108 @@ theorem fromProperties_is_rel (kv : AMap Scalar) : FromPropertiesRel kv (fromPro
 theorem decode_deterministic (load : String → List (String × String)) (t₁ t₂ : String) (h : t₁ = t₂) :
     fromReader load t₁ = fromReader load t₂ := by rw [h]
 
+/-! ## exactness on prefix-free key sets -/
+
+theorem segsNonempty_of_keyOk {kv : AMap Scalar} (h : ∀ p ∈ kv, KeyOk p.1) : SegsNonempty kv :=
+  fun p hp s hs => (h p hp s hs).1
+
+theorem keysNoSuffix_of_keyOk {kv : AMap Scalar} (h : ∀ p ∈ kv, KeyOk p.1) : KeysNoSuffix kv :=
+  fun p hp s hs => (h p hp s hs).2
+
+/-- flattenPlain(utils.Unflatten(kv)) == kv when no key is a dotted prefix of another. -/
+theorem unflatten_flatten (kv : AMap Scalar) (hs : AMap.Sorted kv) (hk : ∀ p ∈ kv, KeyOk p.1)
+    (hpf : PrefixFree kv) : flattenPlainMap (unflatten (toV kv)) = kv :=
+  flattenPlainMap_unflatten hs hpf (segsNonempty_of_keyOk hk)
+
+/-- … also as membership in the traversal itself (no normalisation involved). -/
+theorem unflatten_flatten_mem (kv : AMap Scalar) (hs : AMap.Sorted kv) (hk : ∀ p ∈ kv, KeyOk p.1)
+    (hpf : PrefixFree kv) (path : String) (s : Scalar) :
+    (path, s) ∈ flattenPlain (unflatten (toV kv)) ↔ (path, s) ∈ kv :=
+  mem_flattenPlain_unflatten hs hpf (segsNonempty_of_keyOk hk) path s
+
+/-- Flatten(FromProperties(kv)) == kv (also k8s.DecodeEmbeddedProps, the same loop). -/
+theorem fromProperties_flatten (kv : AMap Scalar) (hs : AMap.Sorted kv) (hk : ∀ p ∈ kv, KeyOk p.1)
+    (hpf : PrefixFree kv) : flattenMap (fromProperties kv) = kv :=
+  flattenMap_fromProperties hs hpf (segsNonempty_of_keyOk hk) (keysNoSuffix_of_keyOk hk)
+
+/-- Flatten(FromReader(text, props.DecoderFn)) == kv for every text that the loader reads as `kv`. -/
+theorem fromReader_flatten (load : String → List (String × String)) (text : String) (kv : AMap Scalar)
+    (hl : Loads load text kv) (hs : AMap.Sorted kv) (hk : ∀ p ∈ kv, KeyOk p.1) (hpf : PrefixFree kv) :
+    flattenMap (fromReader load text) = kv := by
+  rw [fromReader_eq_fromProperties load text kv hl (keysNoSuffix_of_keyOk hk)]
+  exact fromProperties_flatten kv hs hk hpf
+
+/-- DecoderFn(EncoderFn(kv)) == kv, with the reference parser as the loader: nothing assumed. -/
+theorem decode_encode (kv : AMap Scalar) (hs : AMap.Sorted kv) (hk : ∀ p ∈ kv, KeyOk p.1)
+    (hpf : PrefixFree kv) (hsafe : ∀ p ∈ kv, LineSafe p) (hstr : ∀ p ∈ kv, p.2.ty = "string") :
+    flattenMap (fromReader parseSimple (encoderFn kv)) = kv :=
+  fromReader_flatten parseSimple _ kv (loads_parseSimple_encoderFn hs hsafe hstr) hs hk hpf
+
+/-- … and for every order in which the encoder may have written the lines. -/
+theorem decode_encode_rel (kv : AMap Scalar) (out : String) (hr : EncodeRel kv out)
+    (hs : AMap.Sorted kv) (hk : ∀ p ∈ kv, KeyOk p.1)
+    (hpf : PrefixFree kv) (hsafe : ∀ p ∈ kv, LineSafe p) (hstr : ∀ p ∈ kv, p.2.ty = "string") :
+    flattenMap (fromReader parseSimple out) = kv := by
+  obtain ⟨l, hl, rfl⟩ := hr
+  exact fromReader_flatten parseSimple _ kv (loads_parseSimple_encodeList hl hs hsafe hstr) hs hk hpf
+
+/-! ## independence of the visiting order -/
+
+/-- On prefix-free key sets the result of Unflatten does not depend on the order in which the
+    keys are visited (so the pre-fix code was already deterministic there). -/
+theorem unflatten_order_indep (kv : AMap Scalar) (hs : AMap.Sorted kv) (hpf : PrefixFree kv)
+    (out : AMap Val) (h : UnflattenRel (toV kv) out) : out = unflatten (toV kv) := by
+  refine unflattenRel_unique (toV kv) (sorted_toV hs) ?_ ?_ out h
+  · intro p hp
+    simp only [toV, List.mem_map] at hp
+    obtain ⟨a, _, rfl⟩ := hp
+    exact .sc _
+  · intro p hp q hq hne
+    simp only [toV, List.mem_map] at hp hq
+    obtain ⟨a, ha, rfl⟩ := hp
+    obtain ⟨b, hb, rfl⟩ := hq
+    exact hpf a ha b hb hne
+
+theorem fromProperties_order_indep (kv : AMap Scalar) (hs : AMap.Sorted kv) (hk : ∀ p ∈ kv, KeyOk p.1)
+    (hpf : PrefixFree kv) (out : AMap Node) (h : FromPropertiesRel kv out) : out = fromProperties kv :=
+  fromPropertiesRel_unique hs hpf (keysNoSuffix_of_keyOk hk) out h
+
+/-- Decoding the same pairs gives the same document whatever the order of the lines and
+    WHATEVER the keys (conflicting ones included): the model of DecoderFn sorts before it
+    unflattens. -/
+theorem decode_line_order_indep (kv : AMap Scalar) (l : List (String × Scalar)) (hl : l.Perm kv)
+    (hs : AMap.Sorted kv) (hsafe : ∀ p ∈ kv, LineSafe p) (hstr : ∀ p ∈ kv, p.2.ty = "string") :
+    fromReader parseSimple (encodeList l) = fromReader parseSimple (encoderFn kv) :=
+  fromReader_line_order hl hs hsafe hstr
+
+/-- FromReader ∘ DecoderFn and FromProperties build the same document from the same pairs. -/
+theorem fromReader_eq_fromProperties (load : String → List (String × String)) (text : String)
+    (kv : AMap Scalar) (hl : Loads load text kv) (hk : ∀ p ∈ kv, KeyOk p.1) :
+    fromReader load text = fromProperties kv :=
+  Props.fromReader_eq_fromProperties load text kv hl (keysNoSuffix_of_keyOk hk)
+
 /-! ## non-vacuity: exactness on a concrete prefix-free map -/
 
 def exKv : AMap Val :=
   [("a.b", strVal "1"), ("a.c.d", strVal "x"), ("k1", strVal ""), ("x-y.z_9", strVal "true")]
 def exKvS : AMap Scalar :=
   [("a.b", ⟨"string", "1"⟩), ("a.c.d", ⟨"string", "x"⟩), ("k1", ⟨"string", ""⟩), ("x-y.z_9", ⟨"string", "true"⟩)]
+
+/-- the hypotheses of the exactness theorems are satisfiable: `exKvS` is sorted, prefix-free,
+    has path-safe keys, line-safe string entries, and `toV exKvS = exKv` -/
+theorem nonvacuous_hypotheses :
+    (∀ p ∈ exKvS, KeyOk p.1) ∧ PrefixFree exKvS ∧ (∀ p ∈ exKvS, p.2.ty = "string") ∧ toV exKvS = exKv := by
+  refine ⟨?_, ?_, by decide, by decide⟩
+  · intro p hp s hs; revert s hs; revert p hp; decide
+  · intro p hp q hq; revert q hq; revert p hp; decide
+
+theorem nonvacuous_sorted_linesafe : AMap.Sorted exKvS ∧ (∀ p ∈ exKvS, LineSafe p) := by
+  refine ⟨?_, ?_⟩
+  case refine_2 =>
+    show ∀ p ∈ exKvS, ('=' ∉ p.1.toList ∧ '\n' ∉ p.1.toList ∧ '\n' ∉ p.2.text.toList)
+    decide
+  have h : AMap.ofList exKvS = exKvS := by decide +kernel
+  rw [← h]; exact AMap.sorted_ofList _
 
 theorem nonvacuous_unflatten_flatten : flattenPlainMap (unflatten exKv) = exKvS := by decide +kernel
 
